@@ -280,7 +280,7 @@ def run(ctx):
             ctx.ob("R09.5", "running.pid<-fork", ok, fn.loc(bb, si), "Running.pid = %s (must be the Some payload of posix::fork())" % M.term_str(pid))
             # on the Some edge of the match on fork's result
             forkopt = lambda t: M.strip(t)[0] == "call" and M.strip(t)[1] == "posix::fork"
-            edges = variant_edges(fn, T, forkopt, 1, [0, 1])
+            edges = variant_edges(fn, T, forkopt, 1, [0, 1], "std::option::Option<")
             ctx.ob("R09.5", "running.on-parent-edge", dominated_by_edges(fn, bb, edges), fn.loc(bb, si), "Running is stored on the Some (parent) edge of fork()")
     fk = prog.one("posix::fork")
     T = M.Terms(fk)
